@@ -184,7 +184,7 @@ def run_history(rec, case):
     rng = gen.mkrng('c03', case['seed'], case['i'])
     srv = case.get('srv') or rng.choice(['T', 'A'])
     if srv == 'A' and case.get('aio'):
-        srv = case['aio']    # asyncio server behind the aiohttp adapter
+        srv = case['aio']    # asyncio server behind the aiohttp / tornado adapter
         rec.count('histories_on_aiohttp_adapter')
     rec.evaluations += 1
     # the inbound size limit says nothing about what the server sends: a
@@ -477,6 +477,8 @@ def run_shard(spec):
                  for k in range(spec['n'])]
         for c in cases[::2]:
             c['aio'] = 'H'
+        for c in cases[2::4]:
+            c['aio'] = 'N'     # ... and behind the tornado adapter
         for c in cases[1::4]:
             c['wst'] = True
         scen.run_cases(rec, cases, dispatch)
